@@ -174,6 +174,67 @@ func assignRHS(p *pkgFuncs, fn, name string) (string, error) {
 	return res, nil
 }
 
+// scalarTable reads the `switch kind` of tscommon.TSScalarType: protoreflect kind -> TypeScript type.
+func scalarTable() ([][2]string, error) {
+	_, f, err := parseFile("internal/tscommon/types.go")
+	if err != nil {
+		return nil, err
+	}
+	consts := stringConsts(f)
+	fd := findFunc(f, "TSScalarType")
+	if fd == nil {
+		return nil, fmt.Errorf("tscommon.TSScalarType not found")
+	}
+	var sw *ast.SwitchStmt
+	ast.Inspect(fd.Body, func(n ast.Node) bool {
+		if s, ok := n.(*ast.SwitchStmt); ok && sw == nil {
+			sw = s
+		}
+		return true
+	})
+	if sw == nil {
+		return nil, fmt.Errorf("TSScalarType: no switch")
+	}
+	var out [][2]string
+	for _, st := range sw.Body.List {
+		cc := st.(*ast.CaseClause)
+		var ret *ast.ReturnStmt
+		for _, b := range cc.Body {
+			if r, ok := b.(*ast.ReturnStmt); ok {
+				ret = r
+			}
+		}
+		if ret == nil || len(ret.Results) != 1 {
+			return nil, fmt.Errorf("TSScalarType: case without a single return")
+		}
+		val := ""
+		switch r := ret.Results[0].(type) {
+		case *ast.Ident:
+			v, ok := consts[r.Name]
+			if !ok {
+				return nil, fmt.Errorf("TSScalarType: unknown constant %s", r.Name)
+			}
+			val = v
+		case *ast.BasicLit:
+			val = strings.Trim(r.Value, "\"")
+		default:
+			return nil, fmt.Errorf("TSScalarType: unexpected return expression")
+		}
+		for _, e := range cc.List {
+			sel, ok := e.(*ast.SelectorExpr)
+			if !ok || !strings.HasSuffix(sel.Sel.Name, "Kind") {
+				return nil, fmt.Errorf("TSScalarType: unexpected case expression")
+			}
+			k := strings.ToLower(strings.TrimSuffix(sel.Sel.Name, "Kind"))
+			if k == "group" {
+				continue
+			}
+			out = append(out, [2]string{k, val})
+		}
+	}
+	return out, nil
+}
+
 func extractTsDecl() (string, error) {
 	cl, err := loadPkg("internal/tsclientgen")
 	if err != nil {
@@ -227,6 +288,19 @@ func extractTsDecl() (string, error) {
 	b.WriteString("/-- the expression naming the request type (`req: T`) in each generator. -/\n")
 	b.WriteString("def clientRequestType : String := " + leanStr(ci) + "\n")
 	b.WriteString("def serverRequestType : String := " + leanStr(si) + "\n")
+	tab, err := scalarTable()
+	if err != nil {
+		return "", err
+	}
+	b.WriteString("/-- `tscommon.TSScalarType`: protoreflect kind -> TypeScript type. -/\n")
+	b.WriteString("def scalarTable : List (String × String) := [")
+	for i, e := range tab {
+		if i > 0 {
+			b.WriteString(", ")
+		}
+		b.WriteString("(" + leanStr(e[0]) + ", " + leanStr(e[1]) + ")")
+	}
+	b.WriteString("]\n")
 	b.WriteString("/-- sha256 of internal/tscommon/types.go (evidence only; no theorem depends on it). -/\n")
 	b.WriteString("def typesGoDigest : String := " + leanStr(hex.EncodeToString(h[:])) + "\n")
 	b.WriteString("end Sebuf.Gen.TsDecl\n")
